@@ -59,6 +59,8 @@ def concretise(c, rnd):
             extra += ' corner-offset="25%"'
         elif r < 0.65 and opposite:
             extra += ' corner-offset="-1"'
+    if ct != "corner" and rnd.random() < 0.3:
+        extra += ' corner-offset="2"'      # means nothing for a straight connector, and must not be left behind either
     conn = f'<{name} id="s" start="{st}" end="{en}"{extra}/>'
     if rnd.random() < 0.3:
         return f"<svg>{conn}{a}{b}</svg>"
